@@ -8,4 +8,7 @@ CHECKS = {
  "C13": {"text": "Thousands of generated labeled-interval arrays (contiguous and gapped) with crop points forced onto boundaries, inside intervals and beyond the span, checked point-wise against the labelling function before/after adjust_intervals/adjust_events, common-refinement and duration conservation for merge_labeled_intervals, closed-interval/later-wins labelling for interpolate_intervals/intervals_to_samples and the boundaries<->intervals inverse pair. Sampled, exact on the dyadic lattice; found and now guards the zero-duration defect (FX-03).",
          "design_ref": "DESIGN.md section 3, C13", "note": BASE_NOTE,
          "technique": "property-based testing: Hypothesis-generated interval arrays and crop points vs point-wise labelling-function oracle (metamorphic/round-trip)"},
+ "C10": {"text": "Exhaustive over every label derivable from the documented grammar to a depth bound (160 380 labels quick, ~4.8 M thorough) x both encode flags, compared with an independent recursive-descent parser/encoder; plus grammar-random labels, single-edit mutants and arbitrary text for totality (only InvalidChordException may escape), structure of the encoding, split/join round trip and N/X sentinels. Exhaustive inside the bound, sampled beyond; found and now guards the trailing-newline defect (FX-09).",
+         "design_ref": "DESIGN.md section 3, C10", "note": BASE_NOTE,
+         "technique": "property-based testing / grammar-based fuzzing: exhaustive grammar enumeration + Hypothesis grammar-random, mutated and arbitrary strings vs an independent parser/encoder (differential) and a split/join round trip"},
 }
